@@ -77,6 +77,40 @@ def run(ctx):
                 ctx.fail("correspondence", f"Element.get({x!r}, a={a!r}) -> {st} {val} but model answers {' '.join(t)[:80]}", inp={"op": "ehead", "id": x, "a": a})
     ctx.exhaustive = True
     ctx.sample({"op": "ident", "id": "Fe", "impl": list(EL.element_identify("Fe"))})
+    # Element.get with supplied initial vectors: every combination of n / kT given or not, entries below the minima, wrong lengths
+    from leanio import farr
+    for k in range(120 if ctx.thorough else 40):
+        z = int(rng.integers(1, 106))
+        idv = [z, ELEMENT_ES[z - 1], ELEMENT_NAME[z - 1]][k % 3]
+        def vec(minv, bad_len):
+            m = z + 1 + (int(rng.choice([-1, 1])) if bad_len else 0)
+            v = 10 ** rng.uniform(-2, 3, m) * minv
+            if rng.integers(2): v[rng.integers(m)] = minv * float(rng.choice([0.0, 0.5, 1.0, -1.0]))
+            return v
+        n = vec(1e-6, k % 11 == 5) if k % 4 in (0, 1) else None
+        kT = vec(1e-3, k % 13 == 7) if k % 4 in (0, 2) else None
+        def g():
+            e = ebisim.Element.get(idv, n=None if n is None else n.copy(), kT=None if kT is None else kT.copy())
+            return e.n, e.kT
+        st, val = py_call(g)
+        t = D.ask("eget " + ident_str(idv) + (" 1 " + farr(n) if n is not None else " 0") + (" 1 " + farr(kT) if kT is not None else " 0"))
+        ctx.evaluations += 1
+        desc = {"op": "eget", "id": idv, "n": None if n is None else n.tolist(), "kT": None if kT is None else kT.tolist()}
+        if st == "ok":
+            okm = t[0] == "ok"
+            if okm:
+                pos = 1
+                for ref in val:
+                    if t[pos] == "0":
+                        okm = okm and ref is None; pos += 1
+                    else:
+                        m = int(t[pos + 1]); got = dec(t[pos + 2: pos + 2 + m]); pos += 2 + m
+                        okm = okm and ref is not None and np.array_equal(got, ref)
+            ctx.seen(("eget", z, k))
+        else:
+            okm = t == ["ValueError"]
+        if not okm:
+            ctx.fail("correspondence", f"Element.get({idv!r}, n={'given' if n is not None else None}, kT={'given' if kT is not None else None}) -> {st} but the model answers {' '.join(t)[:80]}", inp=desc)
     # factories
     nf = 400 if ctx.thorough else 80
     for k in range(nf):
@@ -240,6 +274,19 @@ def search(ctx):
             okv = nl < MINIMAL_N_1D
         if not okv:
             V.append({"key": {"clause": "get_ions"}, "what": f"get_ions({z}, {nl}, {kT}, {q}) does not put the requested values into charge state {q} with minima elsewhere", "input": {"Z": z, "nl": nl, "kT": kT, "q": q}})
+    for z in (1, 6, 26, 92):
+        kT = np.full(z + 1, 5.0); kT[0] = 0.0; kT[-1] = -1.0
+        n = np.full(z + 1, 1.0); n[0] = 0.0
+        for kw in ({"kT": kT.copy()}, {"n": n.copy()}, {"n": n.copy(), "kT": kT.copy()}):
+            e = ebisim.Element.get(z, **kw)
+            if (e.kT is not None and e.kT.min() < MINIMAL_KBT) or (e.n is not None and e.n.min() < MINIMAL_N_1D):
+                V.append({"key": {"clause": "targets_floor", "args": sorted(kw)}, "what": f"Element.get({z}, {sorted(kw)}) hands out initial values below the documented minima (min kT {None if e.kT is None else e.kT.min()}, min n {None if e.n is None else e.n.min()})", "input": {"Z": z, "args": sorted(kw)}})
+        for kw in ({"kT": np.ones(z + 3)}, {"n": np.ones(z)}):
+            try:
+                ebisim.Element.get(z, **kw)
+                V.append({"key": {"clause": "wrong_length", "args": sorted(kw)}, "what": f"Element.get({z}) accepts a {sorted(kw)} vector of the wrong length", "input": {"Z": z, "args": sorted(kw)}})
+            except ValueError:
+                pass
     # broken table theorems whose failing rows are all known findings are explained
     return V
 
